@@ -12,6 +12,9 @@ ItemsDistinct == [f \in Files |-> << It(f, "struct") >>]
 ItemsMixed == [f \in Files |-> << It(f, "struct"), It(f, "enum"), It(f, "alias"), It(f, "const") >>]
 \* the same without consts
 ItemsNoConst == [f \in Files |-> << It(f, "struct"), It(f, "enum"), It(f, "alias") >>]
+\* deliveries: every file once; or f1 twice (it lies under two of the directory arguments)
+VisitsOnce == [f \in Files |-> 1]
+VisitsF1Twice == [f \in Files |-> IF f = "f1" THEN 2 ELSE 1]
 \* outputs: everything into one file (-o), or two crates (-d): f1, f2 -> o1, the rest -> o2
 OutSingle == [f \in Files |-> "o1"]
 OutTwo == [f \in Files |-> IF f \in {"f1", "f2"} THEN "o1" ELSE "o2"]
